@@ -34,6 +34,54 @@ def pItem : P G := do
     | _ => failure
   else failure
 
+def splitNats (t : String) : Option (String × List Nat) :=
+  match t.splitOn ":" with
+  | [] => none
+  | nm :: rest =>
+    let ns := rest.map String.toNat?
+    if ns.all Option.isSome then some (nm, ns.map (fun o => o.getD 0)) else none
+
+/-- one step of a matrix history; `at:i:j` carries the inner index: `none` for the guard means
+    "inner index not meaningful" (unguarded std::vector index: outside the quantifier) -/
+def pMatOp : P (MatOp × Option Nat) := do
+  let t ← tok
+  match splitNats t with
+  | some ("resize", [r, c]) => pure (.resize r c, none)
+  | some ("assign", [r, c]) => pure (.assign r c, none)
+  | some ("set", [r, c]) => pure (.set r c, none)
+  | some ("delrow", [i]) => pure (.delRow i, none)
+  | some ("delcol", [j]) => pure (.delCol j, none)
+  | some ("at", [i, j]) => pure (.at i, some j)
+  | some ("plus", [r, c]) | some ("minus", [r, c]) | some ("addeq", [r, c]) | some ("subeq", [r, c]) => pure (.sum r c, none)
+  | some ("prod", [r, c]) => pure (.prod r c, none)
+  | some ("prodv", [n]) => pure (.prodv n, none)
+  | some ("trace", []) => pure (.trace, none)
+  | some ("transpose", []) => pure (.transpose, none)
+  | some ("row", [i]) => pure (.row i, none)
+  | some ("col", [j]) => pure (.col j, none)
+  | _ => failure
+
+def pVecOp : P VecOp := do
+  let t ← tok
+  match splitNats t with
+  | some ("resize", [n]) => pure (.resize n)
+  | some ("assign", [n]) => pure (.assign n)
+  | some ("set", [n]) => pure (.set n)
+  | some ("at", [i]) => pure (.at i)
+  | some ("dot", [n]) | some ("add", [n]) | some ("sub", [n]) | some ("addeq", [n]) | some ("subeq", [n]) => pure (.pair n)
+  | some ("cross", [n]) => pure (.cross n)
+  | _ => failure
+
+/-- does a history contain an `at:i:j` whose outer index is accepted but whose inner index is out of range? -/
+def innerOOB : Nat × Nat → List (MatOp × Option Nat) → Bool
+  | _, [] => false
+  | s, (op, j) :: rest =>
+    if (matOpGuard s op).stops then false
+    else
+      (match j with
+        | some j => decide (j ≥ s.2)
+        | none => false) || innerOOB (matOpShape s op) rest
+
 def ones (n : Nat) : List Rat := List.replicate n 1
 def p2 : P (Nat × Nat) := do let a ← pNat; let b ← pNat; pure (a, b)
 def p3 : P (Nat × Nat × Nat) := do let a ← pNat; let b ← pNat; let c ← pNat; pure (a, b, c)
@@ -53,6 +101,9 @@ def handle : Handler := fun op args =>
       withArgs p2 args fun (n, m) => ans (vecPairGuard n m) (vecPairReads (ones n) (ones m))
   | "c10.vec.cross" => withArgs p2 args fun (n, m) => ans (crossGuard n m) (crossReads (ones n) (ones m))
   -- 2. Matrix
+  | "c10.mat.hist" => withArgs (do let r ← pNat; let c ← pNat; let ops ← pList pMatOp; pure (r, c, ops)) args fun (r, c, ops) =>
+      if innerOOB (r, c) ops then "undef" else ans (matHistGuard (r, c) (ops.map (·.1)))
+  | "c10.vec.hist" => withArgs (do let d ← pNat; let ops ← pList pVecOp; pure (d, ops)) args fun (d, ops) => ans (vecHistGuard d ops)
   | "c10.mat.index" | "c10.mat.cindex" => withArgs p3 args fun (r, c, i) => ans (matIndexGuard r i) (matIndexReads (Mat.const r c 1) i)
   | "c10.mat.entries" => withArgs pNats args fun lens => ans (matEntriesGuard lens)
   | "c10.mat.block" => withArgs (do let R ← pNat; let C ← pNat; let l ← pMany p2 (R * C); pure (R, C, l)) args fun (R, C, l) =>
